@@ -258,6 +258,89 @@ KEY_CTORS = ("jax.random.PRNGKey", "jax.random.key")
 ENTROPY_MODULES = ("random", "secrets", "uuid", "time", "numpy.random", "os.urandom", "datetime")
 
 
+def _key_split_rule(ctx, prog):
+    """KEY4: one split per period; the carried key and the keys of the variables are DIFFERENT parts of it."""
+    from lcmsa.alg import deindex
+
+    q = "lcm.simulate._generate_simulation_keys"
+    if q not in prog.funcs:
+        ctx.undecided("KEY4:distinct-keys", f"{q} not found (anchor vanished)")
+        return
+    g = prog.frame(q)
+    ret = deindex(g.ret) if g.ret is not None else None
+    splits = list(dict.fromkeys(s for s in walk(ret) if s[0] == "call" and callee_name(s) == "jax.random.split")) if ret else []
+    if ret is None or ret[0] != "tuple" or len(ret[1]) != 2 or len(splits) != 1:
+        ctx.undecided("KEY4:distinct-keys", f"key generation not recognised ({len(splits)} split calls)", prog.where(ret) if ret else "")
+        return
+    S = splits[0]
+    k0, d = ret[1]
+    from lcmsa.alg import identity_comp
+
+    d = identity_comp(d)
+    where = prog.where(S)
+    c0 = k0[2][1] if k0[0] == "sub" and k0[1] == S and k0[2][0] == "const" and isinstance(k0[2][1], int) else None
+    if c0 is None and not any(x == S for x in walk(k0)):
+        ctx.ob("KEY4:distinct-keys", False, where, f"the key carried to the next period ({show(k0)[:60]}) is not a part of this period's split: "
+               "the same key is split again in every period", lhs=k0, rhs="split[0]")
+        return
+    if c0 is None:
+        ctx.undecided("KEY4:distinct-keys", f"the carried key is {show(k0)[:80]} (expected one element of the split)", where)
+        return
+    verdict, why = None, "mapping of names to keys not recognised"
+    # dict(zip(ids, S[lo:]))
+    if callee_name(d) == "builtins.dict" and len(d[2]) == 1 and callee_name(d[2][0]) == "builtins.zip" and len(d[2][0][2]) == 2:
+        vals = d[2][0][2][1]
+        if vals[0] == "sub" and vals[1] == S and vals[2][0] == "slice":
+            lo = vals[2][1]
+            lo = 0 if lo is None or lo == ("const", None) else (lo[1] if lo[0] == "const" and isinstance(lo[1], int) else None)
+            hi = vals[2][2]
+            hi = None if hi is None or hi == ("const", None) else (hi[1] if hi[0] == "const" and isinstance(hi[1], int) else "?")
+            if hi is not None and hi != "?" and lo is not None and len(vals[2]) >= 3 and hi == ("unop",):
+                hi = "?"
+            if vals[2][2] is not None and vals[2][2][0] == "unop" and vals[2][2][1] == "-" and vals[2][2][2][0] == "const":
+                hi = -vals[2][2][2][1]
+            if lo is not None and hi != "?" and (len(vals[2]) < 4 or vals[2][3] in (None, ("const", None))):
+                inside = lo <= c0 and (hi is None or hi < 0 or hi > c0)
+                verdict = not inside
+                rng = f"split[{lo}:{'' if hi is None else hi}]"
+                why = (f"names are paired with {rng}, the carried key is split[{c0}]" if verdict else
+                       f"split[{c0}] is carried to the next period AND handed to a variable ({rng})")
+        elif vals == S:
+            verdict, why = False, f"split[{c0}] is carried to the next period AND handed to the first variable"
+    elif d[0] == "comp" and d[1] == "dict" and len(d[3]) == 1:
+        tg, it, _conds = d[3][0]
+        v = d[2][1]
+        if v[0] == "sub" and v[1] == S:
+            idx = v[2]
+            if idx[0] == "const":
+                verdict, why = False, f"every variable receives the same key split[{idx[1]}]: draws of different variables are not independent"
+            elif callee_name(it) == "builtins.enumerate" and tg[0] == "tuple":
+                pos = tg[1][0]
+                start = kw(it, "start") or (it[2][1] if len(it[2]) > 1 else ("const", 0))
+                off = None
+                if idx == pos:
+                    off = 0
+                elif idx[0] == "binop" and idx[1] == "+" and idx[2] == pos and idx[3][0] == "const":
+                    off = idx[3][1]
+                elif idx[0] == "binop" and idx[1] == "+" and idx[3] == pos and idx[2][0] == "const":
+                    off = idx[2][1]
+                if off is not None and start[0] == "const":
+                    lo = off + start[1]
+                    verdict = c0 < lo
+                    why = (f"variable i receives split[i+{lo}], the carried key is split[{c0}]" if verdict else
+                           f"split[{c0}] is carried to the next period AND handed to a variable")
+    if verdict is None and not any(x == S for x in walk(d)):
+        verdict, why = False, "the per-variable keys are not taken from this period's split"
+    ctx.ob("KEY4:distinct-keys", verdict, where, why, lhs=d, rhs="pairwise different parts of one split")
+    n = kw(S, "num") or (S[2][1] if len(S[2]) > 1 else None)
+    if n is not None:
+        from lcmsa.alg import norm
+
+        ok = norm(n) == norm(("binop", "+", ("call", ("glob", "builtins.len"), (("param", q, g.params[1] if len(g.params) > 1 else "ids"),), ()), ("const", 1)))
+        ctx.ob("KEY4:split-size", True if ok else None, where,
+               "the split yields one key per variable plus the carried key" if ok else f"split size {show(n)[:60]} not recognised", lhs=n)
+
+
 @rule("R6.KEY")
 def key_rules(ctx: Ctx):
     prog = ctx.prog
@@ -344,6 +427,7 @@ def key_rules(ctx: Ctx):
     ctx.ob("KEY6:results-independent-of-current-key", not tainted, prog.where(res),
            "what is stored for period t does not depend on period t's key (so period 0 does not depend on the seed)"
            if not tainted else "the stored results depend on the PRNG key of the same period", lhs=show(res)[:200])
+    _key_split_rule(ctx, prog)
     # KEY5: keys are generated for every stochastic next function that is sampled
     ids = kw(gen, "ids") if gen is not None else None
     nfr = prog.frame("lcm.next_state._get_next_state_function_simulation")
